@@ -96,6 +96,7 @@ var quickAlways = map[string]bool{
 	"vapi/attestations-electra": true, "vapi/submit-proposal": true, "vapi/sync-committee-messages": true, "vapi/aggregate-attestations": true,
 	"peer/attester-electra": true, "peer/proposer": true, "peer/sync-contribution": true,
 	"prod/vapi/voluntary-exit": true, "prod/peer/exit": true,
+	"prod/vapi/sync-committee-messages": true, "prod/peer/sync-message": true,
 }
 
 // env is the per-run shared state.
